@@ -96,3 +96,53 @@ pub fn eval_op(op: &str, input: &mut Value) -> OpResult {
     _ => Err(format!("unknown-op:{op}")),
   }
 }
+
+/// C06: the same spec through two separate generator runs (client-mod and server-mod)
+pub fn eval_interop(_op: &str, input: &mut Value) -> OpResult {
+  let mut ci = input.clone();
+  ci["mode"] = json!("client-mod");
+  let mut si = input.clone();
+  si["mode"] = json!("server-mod");
+  let (cf, _) = match k_gen::generate(&ci) {
+    Ok(x) => x,
+    Err(e) => return Ok(json!({"err": format!("client: {e}")})),
+  };
+  let (sf, _) = match k_gen::generate(&si) {
+    Ok(x) => x,
+    Err(e) => return Ok(json!({"err": format!("server: {e}")})),
+  };
+  let ct = facts::file_facts(cf.get("types").ok_or("no client types")?);
+  let st = facts::file_facts(sf.get("types").ok_or("no server types")?);
+  let cc = facts::file_facts(cf.get("client").ok_or("no client file")?);
+  let ss = facts::file_facts(sf.get("server").ok_or("no server file")?);
+  let opreq = input["opreq"].as_str().unwrap_or("OpRequest");
+  let openum = input["openum"].as_str().unwrap_or("OpResponse");
+  let shape = |f: &Value| -> Value {
+    // wire-relevant shape of every struct/enum: name, fields (name, type, serde/serde_as attrs), variants
+    let mut out = serde_json::Map::new();
+    for i in f["items"].as_array().into_iter().flatten() {
+      let kind = i["kind"].as_str().unwrap_or("");
+      if kind == "struct" {
+        let fields: Vec<Value> = i["fields"].as_array().into_iter().flatten().map(|fd| {
+          let attrs: Vec<&Value> = fd["attrs"].as_array().into_iter().flatten().filter(|a| a.as_str().is_some_and(|s| s.starts_with("serde"))).collect();
+          json!([fd["name"], fd["ty"], attrs])
+        }).collect();
+        out.insert(format!("struct:{}", i["name"].as_str().unwrap_or("")), Value::Array(fields));
+      } else if kind == "enum" {
+        let vs: Vec<Value> = i["variants"].as_array().into_iter().flatten().map(|v| {
+          let attrs: Vec<&Value> = v["attrs"].as_array().into_iter().flatten().filter(|a| a.as_str().is_some_and(|s| s.starts_with("serde"))).collect();
+          json!([v["name"], v["fields"], attrs])
+        }).collect();
+        out.insert(format!("enum:{}", i["name"].as_str().unwrap_or("")), Value::Array(vs));
+      }
+    }
+    Value::Object(out)
+  };
+  Ok(json!({
+    "chain": ct["chains"].get(opreq).cloned().unwrap_or(Value::Null),
+    "variants": find_item(&ct, "enum", openum).map(|e| e["variants"].clone()).unwrap_or(Value::Null),
+    "table": st["into_response"].get(openum).cloned().unwrap_or(Value::Null),
+    "client_shape": shape(&ct), "server_shape": shape(&st),
+    "client_methods": cc["client_methods"], "routes": ss["routes"],
+  }))
+}
